@@ -191,7 +191,7 @@ TSV_VARIANTS = [
 DKVP_VARIANTS = [
     {"name": "default", "w": [], "r": []},
     {"name": "fs-semicolon-ps-colon", "w": ["--ofs", ";", "--ops", ":"], "r": ["--ifs", ";", "--ips", ":"], "fs": ";", "ps": ":"},
-    {"name": "fs-multichar", "w": ["--ofs", "::", "--ops", "->"], "r": ["--ifs", "::", "--ips", "->"], "fs": "::", "ps": "->"},
+    {"name": "fs-multichar", "w": ["--ofs", "::", "--ops", "->"], "r": ["--ifs", "::", "--ips", "->"], "fs": "::", "ps": "->", "excl": (":", "-", ">")},
     {"name": "rpb2", "w": [], "r": ["--records-per-batch", "2"]},
 ]
 NIDX_VARIANTS = [
@@ -264,6 +264,9 @@ def case_strategy(draw, fname):
     if v.get("nocrlf"):
         vx = vx + NL
         kx = kx + NL
+    if v.get("excl"):  # multi-character separators: no cell may contain or abut a fragment of them
+        vx = vx + tuple(v["excl"])
+        kx = kx + tuple(v["excl"])
     nf = draw(st.one_of(st.integers(1, 5), st.integers(1, 5), st.integers(12, 14)))
     inv = F.invalid_utf8 and F.pywrite is not None and not v.get("barred")
     keycell = cell(kx, F.key_nonempty, inv)
@@ -294,12 +297,23 @@ def case_strategy(draw, fname):
             keys[0] = "k" + keys[0]
         keysets.append(keys)
     recs = []
+    # long cells: physical lines beyond the 4 KiB / 64 KiB buffer sizes of the line readers
+    longmode = draw(st.integers(0, 7)) == 0
+    longlen = draw(st.sampled_from([4090, 4097, 5000, 9000, 65530, 70000])) if longmode else 0
     for i in range(nrec):
         keys = keysets[draw(st.integers(0, len(keysets) - 1))]
         if F.implicit_keys:
             keys = [str(j + 1) for j in range(len(keys))]
-        recs.append([[k, draw(valcell)] for k in keys])
-    return {"fmt": fname, "variant": v["name"], "recs": recs}
+        rec = [[k, draw(valcell)] for k in keys]
+        if longmode:
+            j = draw(st.integers(0, len(rec) - 1))
+            base = rec[j][1] or "x"
+            big = base * (longlen // len(base) + 1)
+            if any(x in big for x in vx) or has_ws(big[:64] + big[-64:]) and fname in ("pprint", "nidx", "markdown", "xtab"):
+                big = "x" * longlen
+            rec[j][1] = big
+        recs.append(rec)
+    return {"fmt": fname, "variant": v["name"], "recs": recs, "long": longlen}
 
 
 def variant_of(F, name):
@@ -360,8 +374,9 @@ def body(ctx, case):
         return  # headerless text: an empty line is not a record (blank line = schema separator), by construction out of domain
     exp = expect_recs(case, F, v)
     nontrivial = needs_encoding(F, recs) or v["name"] != "default" or len({tuple(k for k, _ in r) for r in recs}) > 1
-    ctx.case(case, nontrivial, labels=(F.name + "/" + v["name"], "fields>=12" if any(len(r) >= 12 for r in recs) else "fields<12"),
-             sample={"fmt": F.name, "variant": v["name"], "recs": recs[:2]} if nontrivial else None)
+    ctx.case(case, nontrivial, labels=(F.name + "/" + v["name"], "fields>=12" if any(len(r) >= 12 for r in recs) else "fields<12",
+                                       "long-lines" if case.get("long") else "short-lines"),
+             sample={"fmt": F.name, "variant": v["name"], "recs": recs[:2]} if (nontrivial and not case.get("long")) else None)
     wopts = F.oflag + v["w"]
     ropts = F.iflag + v["r"]
     # ---- leg A: independent writer -> Miller reader
